@@ -135,6 +135,35 @@ func runC08(c *Ctx) {
 	if len(members) < 15 {
 		c.fatalf("C08: only %d exclusion-carrying functions found (≥ 15 expected)", len(members))
 	}
+	// ---- E12 ----------------------------------------------------------------
+	// "patterns protect exactly what they name": the patterns that apply are the caller's — an operation does not add
+	// patterns of its own (a name pattern matches at every depth: `^out\.zip$` added to keep the archive out of itself leaves
+	// out every entry of that name) and does not write into the list it was given (append onto a variadic parameter lands
+	// in the caller's backing array when it has spare capacity, and changes the patterns of the caller's next call).
+	c.rule("E12", "no pattern-carrying function appends to, or stores into, the list of patterns it received: the patterns applied are the caller's, and the caller's list is left alone", 15)
+	for _, f := range members {
+		for _, i := range s.E[f] {
+			prm := f.Params[i]
+			bad := ""
+			withAnon(f, func(g *ssa.Function) {
+				allInstrs(g, func(in ssa.Instruction) {
+					switch x := in.(type) {
+					case *ssa.Call:
+						if calleeFull(&x.Call) == "builtin.append" && len(x.Call.Args) > 0 && resolveValue(x.Call.Args[0]) == ssa.Value(prm) {
+							bad = "append onto it at " + c.ipos(in)
+						}
+					case *ssa.Store:
+						if ia, ok := x.Addr.(*ssa.IndexAddr); ok && resolveValue(ia.X) == ssa.Value(prm) {
+							bad = "an element stored at " + c.ipos(in)
+						}
+					}
+				})
+			})
+			c.check(bad == "", "E12", fname(f)+"/patterns-left-alone:"+prm.Name(), c.pos(f.Pos()), "the list of patterns received is only read and handed on",
+				"the list of patterns "+prm.Name()+" is extended or rewritten ("+bad+"): the operation then applies a pattern the caller never gave — name patterns match at every depth, so entries the caller's patterns do not name are left out — and, the list being the caller's own array, the caller's next call may run with another pattern in place of one of its own")
+		}
+	}
+
 	isRE := func(g *ssa.Function) bool {
 		_, ok := s.E[g]
 		return ok && !c08Appliers[g.Name()] && !c08Listers[g.Name()]
